@@ -512,6 +512,24 @@ Proof.
   split; [assumption|]. unfold same_ranges in *. congruence.
 Qed.
 
+Lemma aux_inval : forall o t, aux o t -> aux o (inval_tab t).
+Proof.
+  intros o t A. unfold inval_tab, inval_tb. destruct chain_inval; [|destruct t; exact A].
+  apply aux_map; [intros; split; reflexivity|intros; assumption|assumption].
+Qed.
+Lemma ranges_inval : forall bs, ranges (inval_tb bs) = ranges bs.
+Proof. intros. unfold inval_tb. destruct chain_inval; [|reflexivity]. unfold ranges. rewrite map_map. reflexivity. Qed.
+Lemma all_ids_inval : forall bs, all_ids (inval_tb bs) = all_ids bs.
+Proof.
+  intros. unfold inval_tb. destruct chain_inval; [|reflexivity]. unfold all_ids.
+  induction bs as [|b r IH]; simpl; [reflexivity|]. rewrite IH. reflexivity.
+Qed.
+Lemma lookup_inval_some : forall id bs, lookup id bs <> None -> lookup id (inval_tb bs) <> None.
+Proof.
+  intros id bs L. destruct (lookup id bs) as [[k n]|] eqn:E; [|contradiction].
+  apply all_ids_lookup. rewrite all_ids_inval. eapply lookup_all_ids; eauto.
+Qed.
+
 Lemma lookup_map_bucket : forall id k f bs, (forall b, ids_of (f b) = ids_of b) -> lookup id bs <> None ->
   lookup id (map_bucket k f bs) <> None.
 Proof.
@@ -574,10 +592,15 @@ Proof.
       pose proof (add_loop_own add_fuel (own s) (now s) nd (bhi b) (tab s) (conj C F) A AT SN) as HO.
       destruct (add_loop add_fuel (own s) (now s) nd (bhi b) (tab s)) as [t [|]|t|]; try contradiction.
       * destruct HO as [At [Sv Zin]]. specialize (Zin eq_refl).
-        pose proof (all_ids_lookup _ _ Zin) as LN. simpl in LN.
-        destruct (lookup id (tb t)) as [[k n]|]; [|contradiction]. simpl.
-        destruct (SG t k n HT At) as [S1 S2]. split; [exact S1|split; [|reflexivity]].
-        intros r Hr. destruct (Sv r Hr) as [X|X]; [left; simpl; rewrite S2; assumption|right; assumption].
+        set (t1 := if nodes_count t =? nodes_count (tab s) then inval_tab t else t).
+        assert (HT1 : tinv (tb t1)) by (unfold t1; destruct (nodes_count t =? nodes_count (tab s)); [apply tinv_inval|]; assumption).
+        assert (At1 : aux (own s) t1) by (unfold t1; destruct (nodes_count t =? nodes_count (tab s)); [apply aux_inval|]; assumption).
+        assert (R1 : ranges (tb t1) = ranges (tb t)) by (unfold t1; destruct (nodes_count t =? nodes_count (tab s)); [apply ranges_inval|reflexivity]).
+        assert (Z1 : In (nid nd) (all_ids (tb t1))) by (unfold t1; destruct (nodes_count t =? nodes_count (tab s)); [simpl; rewrite all_ids_inval|]; assumption).
+        pose proof (all_ids_lookup _ _ Z1) as LN. simpl in LN.
+        destruct (lookup id (tb t1)) as [[k n]|]; [|contradiction]. simpl.
+        destruct (SG t1 k n HT1 At1) as [S1 S2]. split; [exact S1|split; [|reflexivity]].
+        intros r Hr. destruct (Sv r Hr) as [X|X]; [left; simpl; rewrite S2, R1; assumption|right; assumption].
       * destruct HO as [At [Sv _]]. simpl. split; [split; [split; assumption|assumption]|split; [assumption|reflexivity]].
   - destruct (id =? own s); [exact Base|]. unfold node_inactive.
     destruct (lookup id (tb (tab s))) as [[k n]|] eqn:LK; [|exact Base]. destruct (negb (nip n =? ip)); [exact Base|].
@@ -585,21 +608,30 @@ Proof.
     assert (A1 : aux (own s) (mkTable (map_bucket k (b_inactive n) (tb (tab s))) (tchain (tab s)) (town (tab s))))
       by (apply aux_map_bucket; [rng|intros; apply seen_inactive; assumption|assumption]).
     assert (R1 : ranges (map_bucket k (b_inactive n) (tb (tab s))) = ranges (tb (tab s))) by (apply ranges_map_bucket; rng).
-    assert (LN : lookup id (map_bucket k (b_inactive n) (tb (tab s))) <> None)
+    assert (LN0 : lookup id (map_bucket k (b_inactive n) (tb (tab s))) <> None)
       by (apply lookup_map_bucket; [intros; apply inactive_ids|rewrite LK; discriminate]).
-    destruct (lookup id (map_bucket k (b_inactive n) (tb (tab s)))) as [[k' n1]|]; [|contradiction].
+    set (bs1 := if (ninact n + 1 =? max_failed) && negb (is_bad n) then inval_tb (map_bucket k (b_inactive n) (tb (tab s)))
+                else map_bucket k (b_inactive n) (tb (tab s))).
+    assert (T1' : tinv bs1) by (unfold bs1; destruct (_ && _); [apply tinv_inval|]; assumption).
+    assert (A1' : aux (own s) (mkTable bs1 (tchain (tab s)) (town (tab s))))
+      by (unfold bs1; destruct (_ && _); [apply (aux_inval (own s) (mkTable (map_bucket k (b_inactive n) (tb (tab s))) (tchain (tab s)) (town (tab s))))|]; assumption).
+    assert (R1' : ranges bs1 = ranges (tb (tab s))) by (unfold bs1; destruct (_ && _); [rewrite ranges_inval|]; assumption).
+    assert (LN : lookup id bs1 <> None) by (unfold bs1; destruct (_ && _); [apply lookup_inval_some|]; assumption).
+    destruct (lookup id bs1) as [[k' n1]|]; [|contradiction].
     destruct (is_bad n1 && _); simpl.
     + split; [split; [split|assumption]|split; [|reflexivity]].
-      * apply tinv_map_bucket; [intros; split; reflexivity|intros; apply ok_remove; assumption|assumption].
-      * apply (aux_map_bucket (own s) (mkTable (map_bucket k (b_inactive n) (tb (tab s))) (tchain (tab s)) (town (tab s))) k (b_remove n1));
+      * apply tinv_inval. apply tinv_map_bucket; [intros; split; reflexivity|intros; apply ok_remove; assumption|assumption].
+      * apply (aux_inval (own s) (mkTable (map_bucket k (b_remove n1) bs1) (tchain (tab s)) (town (tab s)))).
+        apply (aux_map_bucket (own s) (mkTable bs1 (tchain (tab s)) (town (tab s))) k (b_remove n1));
           [intros; split; reflexivity|intros; apply seen_remove; assumption|assumption].
-      * intros r Hr. left. rewrite ranges_map_bucket by (intros; split; reflexivity). rewrite R1. assumption.
-    + split; [split; [split; assumption|assumption]|split; [|reflexivity]]. intros r Hr. left. simpl. rewrite R1. assumption.
+      * intros r Hr. left. rewrite ranges_inval. rewrite ranges_map_bucket by (intros; split; reflexivity). rewrite R1'. assumption.
+    + split; [split; [split; assumption|assumption]|split; [|reflexivity]]. intros r Hr. left. simpl. rewrite R1'. assumption.
   - unfold node_invalid. destruct (lookup id (tb (tab s))) as [[k n]|]; [|exact Base]. simpl.
     split; [split; [split|assumption]|split; [|reflexivity]].
-    + apply tinv_map_bucket; [intros; split; reflexivity|intros; apply ok_remove; assumption|assumption].
-    + apply aux_map_bucket; [intros; split; reflexivity|intros; apply seen_remove; assumption|assumption].
-    + intros r Hr. left. rewrite ranges_map_bucket by (intros; split; reflexivity). assumption.
+    + apply tinv_inval. apply tinv_map_bucket; [intros; split; reflexivity|intros; apply ok_remove; assumption|assumption].
+    + apply (aux_inval (own s) (mkTable (map_bucket k (b_remove n) (tb (tab s))) (tchain (tab s)) (town (tab s)))).
+      apply aux_map_bucket; [intros; split; reflexivity|intros; apply seen_remove; assumption|assumption].
+    + intros r Hr. left. rewrite ranges_inval. rewrite ranges_map_bucket by (intros; split; reflexivity). assumption.
   - split; [split; [split|assumption]|split; [|reflexivity]].
     + simpl. apply tinv_map; [intros; split; reflexivity|intros; apply ok_housekeeping; assumption|assumption].
     + simpl. apply aux_map; [intros; split; reflexivity| |assumption].
@@ -641,7 +673,7 @@ Proof.
     + destruct (negb (nip n =? ip)); reflexivity.
     + destruct (negb (want_node s id)); [reflexivity|].
       destruct (add_node_to_bucket _ _ _ _) as [t [|]|t|]; try reflexivity.
-      destruct (lookup id (tb t)) as [[k n]|]; reflexivity.
+      destruct (lookup id (tb _)) as [[k n]|]; reflexivity.
   - rewrite N.add_0_r. destruct (id =? own s); [reflexivity|]. unfold node_inactive.
     destruct (lookup id (tb (tab s))) as [[k n]|]; [|reflexivity]. destruct (negb (nip n =? ip)); [reflexivity|].
     destruct (lookup id _) as [[k' n1]|]; [|reflexivity].
